@@ -249,6 +249,17 @@ func runC15(c runner.Case, env *runner.Env) (res runner.Result) {
 				if r.Bool() {
 					b = []byte(snapshot.NameInfo{SyncerName: "db", InstanceID: "i", GenerationID: "GX", Timestamp: genTime(r, bt), Extension: "pb.gz", Extra: genExtra(r)}.BuildName())
 				}
+				if r.Chance(1, 6) {
+					// dotted text in front of the extension or inside a field (backup copies, temp names)
+					ins := rng.Pick(r, ".bak", ".tmp", ".pb.gz", ".old", ".1", ".")
+					pos := bytes.LastIndex(b, []byte(".pb.gz"))
+					if r.Bool() || pos < 0 {
+						pos = r.Intn(len(b))
+					}
+					b = append(b[:pos], append([]byte(ins), b[pos:]...)...)
+					s = string(b)
+					goto parse
+				}
 				if r.Chance(1, 4) {
 					// exactly one byte of the timestamp field replaced (separators, digits, anything)
 					at := bytes.Index(b, []byte("__2")) // "__" + first digit of the year
@@ -296,6 +307,11 @@ func runC15(c runner.Case, env *runner.Env) (res runner.Result) {
 					// names and component tuples correspond one to one: whatever is accepted as a snapshot name is
 					// exactly the name built from its components (otherwise two distinct names share one tuple and
 					// byte order no longer follows the parsed timestamps)
+					// everything after the FIRST dot is the extension and only "pb.gz" is registered: stray files such as
+					// ...GX.bak.pb.gz, ...GX.pb.gz.tmp, db.old__... are not snapshots
+					if i := strings.Index(s, "."); i < 0 || s[i+1:] != "pb.gz" {
+						res.Violate("non-snapshot-file-accepted", fmt.Sprintf("ParseName accepted %q, whose extension (everything after the first dot) is not a registered one", s), map[string]any{"input": s})
+					}
 					canon := ni
 					canon.TimestampString = "" // build the timestamp field from the parsed instant, not from the input text
 					if rb := canon.BuildName(); rb != s {
@@ -400,6 +416,10 @@ func runC15(c runner.Case, env *runner.Env) (res runner.Result) {
 				t := base
 				for k := 0; k < 1+r.Intn(4); k++ {
 					t = t.Add(time.Duration(1+r.Intn(100000)) * time.Millisecond)
+					if r.Bool() {
+						// several snapshots within one wall-clock second: only the sub-second digits order them
+						t = t.Truncate(time.Second).Add(time.Duration(1+k*100+r.Intn(90)) * time.Millisecond)
+					}
 					n := snapshot.Name("main", in, "GX", t)
 					own = append(own, n)
 					shared.Put(n, []byte("s"))
@@ -437,6 +457,19 @@ func runC15(c runner.Case, env *runner.Env) (res runner.Result) {
 					delAlone = append(delAlone, e.Name)
 				}
 			}
+			// the last name of an instance in byte order is its newest snapshot: nothing was ever reported as merged
+			// (SetCommitted), so no policy allows deleting it
+			newestOf := map[string]string{}
+			for _, n := range own {
+				if ni, err := snapshot.ParseName(n); err == nil && n > newestOf[ni.InstanceID] {
+					newestOf[ni.InstanceID] = n
+				}
+			}
+			for _, n := range delAlone {
+				if ni, err := snapshot.ParseName(n); err == nil && newestOf[ni.InstanceID] == n {
+					res.Violate("cleaner-deleted-the-last-name-of-an-instance", fmt.Sprintf("the cleaner deleted %s, the byte-wise last (= newest) snapshot name of instance %s; kept: %v", n, ni.InstanceID, alone.Names()), map[string]any{"own": own, "keep": keep.String(), "stale": stale.String()})
+				}
+			}
 			sort.Strings(delShared)
 			sort.Strings(delAlone)
 			if fmt.Sprint(delShared) != fmt.Sprint(delAlone) {
@@ -468,6 +501,7 @@ func runC15(c runner.Case, env *runner.Env) (res runner.Result) {
 			sc.Foreign = append(sc.Foreign, "db", "db__", "db__x", "db__i0__"+ts+".pb.gz", "db__i0__"+ts+"__GX.tmp", "db__i0__"+ts+"__GX", "db__i0__2030__GX.pb.gz",
 				"db__i0__"+ts+"__GX.pb.gz.tmp", "db__i0__20300101-000000.000000000__GX.pb.gz", "README", "db__i0__"+ts[:24]+"__GX.pb.gz", "db.pb.gz", "db__i0__99999999-999999-999999999__GX.pb.gz",
 				// a stray byte where the seconds/nanoseconds separator belongs: sorts after every real name of that second
+				"db__i0__"+ts+"__GX.bak.pb.gz", "db__i0__"+ts+"__GX.pb.gz.pb.gz", "db__i0.1__"+ts+"__GX.pb.gz", "db__i0__"+ts+"__GX.tmp.pb.gz",
 				"db__i0__20300101-000000_000000000__GX.pb.gz", "db__i0__20300101-000000x000000000__GX.pb.gz", "db__i0__20300101-0000000000000000__GX.pb.gz", "db__i0__20300101_000000-000000000__GX.pb.gz")
 			rng.Shuffle(r, sc.Foreign)
 			out := recvx.Run(sc, nil, 40*time.Second)
